@@ -164,6 +164,35 @@ pub fn generate(tier: Tier, emit: Emit) {
                     ))]),
                     shape: shape.clone(),
                 });
+                // a typed wildcard among several loop arguments: the later arguments still get their elements
+                emit(Case {
+                    family: "for-arg-wildcard",
+                    prog: mk(vec![
+                        x(E::For(
+                            vec![Pat::Id("fa".into(), None), Pat::Wild(None, Some(hint.clone())), Pat::Id("fc".into(), None)],
+                            list(vec![tuple(vec![int(7), ve.clone(), s("last")])]),
+                            blk(vec![print(tuple(vec![s("iter"), id("fa"), id("fc")]))]),
+                        )),
+                        x(E::For(vec![Pat::Wild(None, Some(hint.clone()))], list(vec![ve.clone()]), blk(vec![print(s("iter1"))]))),
+                    ]),
+                    shape: shape.clone(),
+                });
+                let f_nested_wild = x(E::Func(Rc::new(FuncDef {
+                    args: vec![ArgDef {
+                        pat: Pat::Tuple(vec![Pat::Id("na".into(), None), Pat::Wild(None, Some(hint.clone())), Pat::Id("nc".into(), None)], None),
+                        default: None,
+                    }],
+                    variadic: false,
+                    body: blk(vec![print(tuple(vec![s("in f"), id("na"), id("nc")])), int(0)]),
+                    is_gen: false,
+                    out_hint: None,
+                    inline: false,
+                })));
+                emit(Case {
+                    family: "fn-arg-nested-wildcard",
+                    prog: mk(vec![assign("tf", f_nested_wild), print(callf("tf", vec![tuple(vec![int(7), ve.clone(), s("last")])]))]),
+                    shape: shape.clone(),
+                });
                 // 4. function argument (plain, nested, with default), all call paths
                 let f_arg = x(E::Func(Rc::new(FuncDef {
                     args: vec![ArgDef { pat: Pat::Id("ax".into(), Some(hint.clone())), default: None }],
